@@ -5,6 +5,7 @@ import (
 	"context"
 	"fmt"
 	"strings"
+	"sync/atomic"
 	"testing"
 
 	"github.com/bufbuild/protocompile/experimental/incremental"
@@ -31,7 +32,10 @@ type c36Diag struct {
 	InFile  string
 	Notes   []string
 	Help    []string
-	Extra   int // a second (non-primary) snippet: -1 none, else start offset
+	Extra   int    // a second (non-primary) snippet: -1 none, else start offset
+	Label   string `json:",omitempty"` // label of the primary snippet
+	Edit    string `json:",omitempty"` // the primary snippet suggests inserting this text at its start
+	Twin    bool   `json:",omitempty"` // the primary span refers to an equal but distinct File object
 }
 
 type c36Case struct {
@@ -41,6 +45,9 @@ type c36Case struct {
 }
 
 var c36Files = []*source.File{source.NewFile("a.proto", "0123456789"), source.NewFile("b.proto", "abcdefghij")}
+
+// the same two files as distinct objects, as in a report merged from reports that were read back from their serialized form
+var c36FilesTwin = []*source.File{source.NewFile("a.proto", "0123456789"), source.NewFile("b.proto", "abcdefghij")}
 
 func c36Build(ds []c36Diag, order []int, keep bool) *report.Report {
 	r := &report.Report{}
@@ -59,7 +66,18 @@ func c36Emit(r *report.Report, d c36Diag) {
 			opts = append(opts, report.Tag(d.Tag))
 		}
 		if d.File >= 0 {
-			opts = append(opts, report.Snippet(c36Files[d.File].Span(d.Start, d.End)))
+			span := c36Files[d.File].Span(d.Start, d.End)
+			if d.Twin {
+				span = c36FilesTwin[d.File].Span(d.Start, d.End)
+			}
+			switch {
+			case d.Edit != "":
+				opts = append(opts, report.SuggestEdits(span, d.Label, report.Edit{Replace: d.Edit}))
+			case d.Label != "":
+				opts = append(opts, report.Snippetf(span, "%s", d.Label))
+			default:
+				opts = append(opts, report.Snippet(span))
+			}
 		} else if d.InFile != "" {
 			opts = append(opts, report.InFile(d.InFile))
 		}
@@ -164,6 +182,13 @@ func c36GenDiag(t *rapid.T) c36Diag {
 			if gen.Pct(t, 25, "extra") {
 				d.Extra = gen.Uniform(t, 9, "extrapos")
 			}
+			if gen.Pct(t, 25, "label") {
+				d.Label = gen.Pick(t, []string{"l1", "l2"}, "labeltext")
+			}
+			d.Twin = gen.Pct(t, 20, "twin")
+			if gen.Pct(t, 10, "edit") {
+				d.Edit = gen.Pick(t, []string{"x", "y"}, "edittext")
+			}
 		} else {
 			d.File = -1
 			d.InFile = gen.Pick(t, []string{"", "a.proto", "c.proto"}, "infile")
@@ -183,7 +208,25 @@ func c36GenTie(t *rapid.T, c *c36Case) {
 	n := len(c.Diags)
 	if n >= 2 && gen.Pct(t, 60, "tie") {
 		src := c.Diags[gen.Uniform(t, n-1, "tiesrc")]
-		switch gen.Uniform(t, 4, "tiekind") {
+		switch gen.Uniform(t, 7, "tiekind") {
+		case 6:
+			src.Twin = !src.Twin // equal in everything but the identity of the File object
+			if src.Tag == "" {
+				src.Tag = "t1"
+				c.Diags[gen.Uniform(t, n-1, "tiesrc2")].Tag = "t1"
+			}
+		case 4:
+			if src.File >= 0 {
+				src.Label += "other label" // only the label of the primary snippet differs
+			} else {
+				src.Help = []string{"hh"}
+			}
+		case 5:
+			if src.File >= 0 {
+				src.Edit += "z" // only the suggested edit of the primary snippet differs
+			} else {
+				src.Level = 2 + (src.Level-1)%3
+			}
 		case 0:
 			src.Notes = append(append([]string{}, src.Notes...), "extra note")
 		case 1:
@@ -227,7 +270,7 @@ func c36GenPerms(t *rapid.T, c c36Case, n int) c36Case {
 
 func TestC36_Canonicalize(t *testing.T) {
 	ev.Run(t, ev.Spec[c36Case]{ID: "C36", Name: "Canonicalize", Quick: 4000, Thorough: 200000,
-		Rule: "generated diagnostic lists of 1-6 entries over two files with small pools of spans, stages, tags, messages, levels, notes, help texts, secondary snippets and span-less entries (with or without InFile), 60% with an entry that equals an earlier one on every documented sort key (file, stage, start, end, tag, message) but differs in level, notes, help or a secondary snippet; with and without KeepDuplicates; ALL permutations of the input for n<=4, 12 random permutations beyond; oracle: the serialized canonicalized report (Report.ToProto, deterministic encoding) is identical for every input order, and canonicalizing twice changes nothing; non-trivial = list with such a tie; distinct by case",
+		Rule: "generated diagnostic lists of 1-6 entries over two files with small pools of spans, stages, tags, messages, levels, notes, help texts, primary-snippet labels and suggested edits, secondary snippets and span-less entries, 20% of the spans referring to an equal but distinct File object (as after merging reports read back from their serialized form) (with or without InFile), 60% with an entry that equals an earlier one on every documented sort key (file, stage, start, end, tag, message) but differs in level, notes, help, a secondary snippet, or only in the label or the suggested edit of the primary snippet; with and without KeepDuplicates; ALL permutations of the input for n<=4, 12 random permutations beyond; oracle: the serialized canonicalized report (Report.ToProto, deterministic encoding) is identical for every input order, and canonicalizing twice changes nothing; non-trivial = list with such a tie; distinct by case",
 		Gen:  c36Gen, Check: c36Check})
 }
 
@@ -307,6 +350,9 @@ type c36ExecStep struct {
 	Roots []int // in the order handed to Run
 	Fresh bool  // start over with a new executor
 	Evict []int // keys evicted before the Run
+	// CancelAt > 0: before this step's Run, the same roots are run once with a context that query CancelAt-1 cancels
+	// after it has reported its diagnostics (it then waits for the cancellation and returns its cause)
+	CancelAt int `json:",omitempty"`
 }
 
 type c36ExecCase struct {
@@ -315,6 +361,15 @@ type c36ExecCase struct {
 	Children [][]int // DAG: children of node i have larger indices
 	Diags    [][]c36Diag
 	Steps    []c36ExecStep
+
+	rt *c36ExecRT // runtime state, set by the check
+}
+
+// c36ExecRT: which query cancels the current Run (queries of a cancelled Run may still be running when Run returns,
+// hence atomics).
+type c36ExecRT struct {
+	cancelAt atomic.Int64 // query id, -1: none
+	cancel   atomic.Pointer[context.CancelFunc]
 }
 
 type c36ExecKey struct {
@@ -342,6 +397,13 @@ func (q c36ExecQuery) Execute(t *incremental.Task) (int, error) {
 	for _, d := range q.c.Diags[q.id] {
 		c36Emit(t.Report(), d)
 	}
+	if rt := q.c.rt; rt != nil && rt.cancelAt.Load() == int64(q.id) {
+		if cancel := rt.cancel.Load(); cancel != nil {
+			(*cancel)()
+			<-t.Context().Done()
+			return 0, context.Cause(t.Context())
+		}
+	}
 	return q.id, nil
 }
 
@@ -351,7 +413,9 @@ func c36ExecCheck(c c36ExecCase, r *ev.Rec) error {
 		return incremental.New(incremental.WithParallelism(int64(c.Par)), incremental.WithReportOptions(opts))
 	}
 	exec := newExec()
-	memoRuns, dupSeen := 0, false
+	memoRuns, dupSeen, cancelled := 0, false, 0
+	c.rt = &c36ExecRT{}
+	c.rt.cancelAt.Store(-1)
 	for si, st := range c.Steps {
 		if st.Fresh {
 			exec = newExec()
@@ -403,6 +467,16 @@ func c36ExecCheck(c c36ExecCase, r *ev.Rec) error {
 		for _, id := range st.Roots {
 			qs = append(qs, c36ExecQuery{&c, id})
 		}
+		if st.CancelAt > 0 && reach[st.CancelAt-1] {
+			// an abandoned execution: whatever it reported must not show up in the next Run
+			ctx, cancel := context.WithCancel(context.Background())
+			c.rt.cancel.Store(&cancel)
+			c.rt.cancelAt.Store(int64(st.CancelAt - 1))
+			_, _, _ = incremental.Run(ctx, exec, qs...)
+			c.rt.cancelAt.Store(-1)
+			cancel()
+			cancelled++
+		}
 		_, got, err := incremental.Run(context.Background(), exec, qs...)
 		if err != nil {
 			return fmt.Errorf("step %d: Run failed: %v", si, err)
@@ -422,6 +496,7 @@ func c36ExecCheck(c c36ExecCase, r *ev.Rec) error {
 	r.Case(ev.JSONFP(c), nt, append(labels, fmt.Sprintf("par=%d", c.Par))...)
 	r.LabelN("runs", len(c.Steps))
 	r.LabelN("runs-on-a-warm-executor", memoRuns)
+	r.LabelN("runs-preceded-by-a-cancelled-run", cancelled)
 	if nt && r.WantSample() {
 		r.Sample(c)
 	}
@@ -430,7 +505,7 @@ func c36ExecCheck(c c36ExecCase, r *ev.Rec) error {
 
 func TestC36_ExecutorReports(t *testing.T) {
 	ev.Run(t, ev.Spec[c36ExecCase]{ID: "C36", Name: "ExecutorReports", Quick: 1500, Thorough: 60000,
-		Rule: "random DAGs of 1-6 synthetic queries, each reporting 0-3 generated diagnostics (same pools as Canonicalize: tagged duplicates on one span, ties, span-less entries, several stages), often only ONE query reporting at all; a history of 2-6 Runs on one executor (parallelism 1-8, with or without KeepDuplicates) with generated root lists in generated order, repeated roots, evictions and restarts with a fresh executor; oracle after every Run: the serialized report equals the serialized canonicalization of the reachable queries' diagnostics on a fresh report (so it is the same for every order, repetition, schedule and cache state); non-trivial = a Run on a warm executor and a tagged duplicate among the reachable diagnostics; distinct by case",
+		Rule: "random DAGs of 1-6 synthetic queries, each reporting 0-3 generated diagnostics (same pools as Canonicalize: tagged duplicates on one span, ties, span-less entries, several stages), often only ONE query reporting at all; a history of 2-6 Runs on one executor (parallelism 1-8, with or without KeepDuplicates) with generated root lists in generated order, repeated roots, evictions, restarts with a fresh executor, and (25% of the Runs) a preceding Run of the same roots that one of the queries cancels after it has reported its diagnostics; oracle after every Run: the serialized report equals the serialized canonicalization of the reachable queries' diagnostics on a fresh report (so it is the same for every order, repetition, schedule and cache state); non-trivial = a Run on a warm executor and a tagged duplicate among the reachable diagnostics; distinct by case",
 		Gen: func(t *rapid.T) c36ExecCase {
 			n := 1 + gen.Uniform(t, 6, "n")
 			c := c36ExecCase{Par: gen.Pick(t, []int{1, 1, 2, 4, 8}, "par"), Keep: gen.Pct(t, 20, "keep")}
@@ -475,6 +550,9 @@ func TestC36_ExecutorReports(t *testing.T) {
 				}
 				if s > 0 && gen.Pct(t, 25, "evict") {
 					st.Evict = append(st.Evict, gen.Uniform(t, n, "evictkey"))
+				}
+				if gen.Pct(t, 25, "cancel") {
+					st.CancelAt = 1 + gen.Uniform(t, n, "cancelat")
 				}
 				c.Steps = append(c.Steps, st)
 			}
